@@ -15,6 +15,10 @@ claim('C04',
       'Exhaustive symbolic exploration of the real FullConstructor dispatch and python/name lookup: every tag up to the bound on every node kind through FullLoader and CFullLoader (Python half), 12 placement contexts, the three full_load entry points, every python/name: suffix up to the bound against a 3-module stand-in for sys.modules, and the four object-construction prefixes with arbitrary suffixes. Import, call and instantiation are observed by recorders inside the explored paths, so the verdict covers every input class in the bound rather than sampled documents.',
       'Python halves only. Trusted: CrossHair/z3, M1/M1b placeholders for error messages, M7 (hasattr/getattr on the stand-in modules), the stand-in for yaml.constructor.sys and __import__. Known finding K5 (merge-source tag ignored).')
 
+claim('C10',
+      'One inductive step of the copy-on-write registries from an arbitrary reachable configuration: under each of the 9 shipped roots a 4-class lattice is built, the ownership pre-state (3 bits per table kind), the operation (6 registration kinds, subclass / YAMLObject definition, the 6 module-level helpers), its target and its key are solver variables, and after the real add_* code has run the effective table of every lattice class and of every shipped class is compared with the rule of the property (including list-object aliasing of implicit resolvers). Every cell closes its path tree, so the step is decided for every combination in the bound; two-step histories in the thorough tier check that the pre-state invariant is not too weak.',
+      'Registered keys are chosen among {already present, fresh, a core tag, empty} rather than arbitrary strings (inserting a symbolic str into a real dict hashes = realises it). Shipped tables are snapshotted/restored around every path. Histories longer than two steps rest on the inductive argument.')
+
 NA = {
  'C06': 'every comparison is between two artefacts of libyaml (a compiled system .so behind a Cython binding that cannot be rebuilt offline); symbolic values are realised at the extension boundary, so no solver variable survives into the code under comparison',
  'C20': 'asymptotic growth over input sizes: bounded symbolic execution cannot observe doubling and an unbounded cost argument is proof-assistant work; the anchored look-ahead mechanisms are decided as one-step invariants under C09/C18',
